@@ -328,34 +328,31 @@ Proof. intros I. destruct ev; cbn [on_event].
   - destruct ((cid =? client_id s) && negb (closed s)); [|exact I].
     pose proof (close_all_inv s I) as I'. destruct (close_all s) as [[s1 cbs] hang]. exact I'. Qed.
 
+Lemma close_all_inv' s : inv s -> forall s1 cbs hang, close_all s = (s1, cbs, hang) -> inv s1.
+Proof. intros I s1 cbs hang H. pose proof (close_all_inv s I) as I'. rewrite H in I'. exact I'. Qed.
+
+Lemma hc_service_inv c t s : inv s -> inv (fst (fst (hc_service c t s))).
+Proof. intros I. unfold hc_service. destruct (t_work s + c_tis c <? t); [|exact I].
+  destruct (close_all s) as [[s1 cbs] hang] eqn:E. cbn [fst]. eapply close_all_inv'; eauto. Qed.
+Lemma hc_driver_inv c t s : inv s -> inv (fst (hc_driver c t s)).
+Proof. intros I. unfold hc_driver. dmatch; [|exact I]. eapply inv_same_core; [apply core_set_driver_active|exact I]. Qed.
+Lemma hc_heartbeat_inv s : inv s -> inv (fst (fst (hc_heartbeat s))).
+Proof. intros I. unfold hc_heartbeat. destruct (hb_bound s); destruct (hb_env s =? 1); try exact I.
+  destruct (close_all s) as [[s1 cbs] hang] eqn:E. cbn [fst]. eapply close_all_inv'; eauto. Qed.
+Lemma hc_keepalive_inv c t s : inv s -> inv (fst (fst (fst (hc_keepalive c t s)))).
+Proof. intros I. unfold hc_keepalive. destruct (t_keep s + KEEPALIVE_TIMEOUT_MS <? t); [|exact I].
+  pose proof (hc_driver_inv c t s I) as I1. destruct (hc_driver c t s) as [s' cbs']. cbn [fst] in I1.
+  pose proof (hc_heartbeat_inv s' I1) as I2. destruct (hc_heartbeat s') as [[s'' cbs''] hang'']. cbn [fst] in *.
+  eapply inv_same_core; [apply core_set_t_keep|exact I2]. Qed.
+Lemma hc_resources_inv t s : inv s -> inv (fst (hc_resources t s)).
+Proof. intros I. unfold hc_resources. dmatch; [|exact I]. eapply inv_same_core; [apply core_set_t_res|exact I]. Qed.
+
 Lemma heartbeat_check_inv c s : inv s -> inv (fst (fst (fst (heartbeat_check c s)))).
 Proof. intros I. unfold heartbeat_check.
-  set (x1 := if t_work s + c_tis c <? now s then _ else _).
-  assert (I1 : inv (fst (fst x1))).
-  { subst x1. destruct (t_work s + c_tis c <? now s); [|exact I].
-    pose proof (close_all_inv s I) as I'. destruct (close_all s) as [[s1 cbs] hang]. exact I'. }
-  destruct x1 as [[s1 cbs1] hang1]. cbn [fst] in I1.
+  pose proof (hc_service_inv c (now s) s I) as I1. destruct (hc_service c (now s) s) as [[s1 cbs1] hang1]. cbn [fst] in I1.
   assert (I2 : inv (set_t_work (now s) s1)) by (eapply inv_same_core; [apply core_set_t_work|exact I1]).
-  set (s2 := set_t_work (now s) s1) in *.
-  set (x3 := if t_keep s2 + KEEPALIVE_TIMEOUT_MS <? now s then _ else _).
-  assert (I3 : inv (fst (fst (fst x3)))).
-  { subst x3. destruct (t_keep s2 + KEEPALIVE_TIMEOUT_MS <? now s); [|exact I2].
-    set (y := if (0 <=? driver_hb s2) && (driver_hb s2 + c_tdrv c <? now s) then _ else _).
-    assert (Iy : inv (fst y)).
-    { subst y. destruct ((0 <=? driver_hb s2) && (driver_hb s2 + c_tdrv c <? now s)); [|exact I2].
-      eapply inv_same_core; [apply core_set_driver_active|exact I2]. }
-    destruct y as [s' cbs']. cbn [fst] in Iy.
-    set (w := if hb_bound s' then _ else _).
-    assert (Iw : inv (fst (fst w))).
-    { subst w. destruct (hb_bound s').
-      - destruct (hb_env s' =? 1); [exact Iy|].
-        pose proof (close_all_inv s' Iy) as I'. destruct (close_all s') as [[sc cbs] hang]. exact I'.
-      - destruct (hb_env s' =? 1); [|exact Iy]. eapply inv_same_core; [apply core_set_hb_bound|exact Iy]. }
-    destruct w as [[s'' cbs''] hang'']. cbn [fst] in *.
-    eapply inv_same_core; [apply core_set_t_keep|exact Iw]. }
-  destruct x3 as [[[s3 cbs3] hang3] r3]. cbn [fst] in I3.
-  destruct (t_res s3 + RESOURCE_TIMEOUT_MS <? now s); cbn [fst]; [|exact I3].
-  eapply inv_same_core; [apply core_set_t_res|exact I3]. Qed.
+  pose proof (hc_keepalive_inv c (now s) _ I2) as I3. destruct (hc_keepalive c (now s) (set_t_work (now s) s1)) as [[[s3 cbs3] hang3] r3].
+  cbn [fst] in I3. pose proof (hc_resources_inv (now s) s3 I3) as I4. destruct (hc_resources (now s) s3) as [s4 r4]. exact I4. Qed.
 
 Lemma do_work_inv c b s : inv s -> inv (fst (do_work c b s)).
 Proof. intros I. unfold do_work. destruct b; try exact I.
